@@ -929,8 +929,10 @@ func (rl *Shell) viRubout() {
 			break
 		}
 
+		// We walk backward: the character just passed
+		// comes before those we have already cut.
 		rl.cursor.Dec()
-		cut = append(cut, rl.cursor.Char())
+		cut = append([]rune{rl.cursor.Char()}, cut...)
 		rl.line.CutRune(rl.cursor.Pos())
 	}
 
